@@ -231,7 +231,7 @@ def collect(X, spec):
     """{outer fn id (crate stripped): [sink...]}"""
     prog = X.prog
     res = {}
-    for f in prog.fns.values():
+    for f in prog.bodies():
         if f.crate != spec['crate'] or f.kind in ('promoted', 'const'):
             continue
         o = outer(prog, f)
